@@ -344,6 +344,9 @@ func (c *Conn) handleControl(ctx context.Context, h header) (err error) {
 
 	err = fmt.Errorf("received close frame: %w", ce)
 	c.writeClose(ce.Code, ce.Reason)
+	// Remember it for a Close that gets hold of readMu between the unlock
+	// below and the moment the connection is marked closed.
+	c.closeFrameErr = err
 	c.readMu.unlock()
 	c.close()
 	return err
